@@ -16,6 +16,9 @@ pub enum Case {
     Parse { s: String },
     /// equality scenario id
     Equality { id: u32 },
+    /// one-bit differences at the year boundaries and leap days of `year` (and, thorough tier, at every day of it):
+    /// two seven-day-week calendars that differ in one business day (or one settlement day) must compare unequal
+    EqualitySweep { year: i64, every_day: bool },
 }
 
 const MASKS: [&[u8]; 4] = [&[5, 6], &[], &[4, 5], &[6]];
@@ -352,6 +355,40 @@ pub fn check(case: &Case, idx: u64, acc: &mut Acc) {
                 acc.sample(cj);
             }
         }
+        Case::EqualitySweep { year, every_day } => {
+            let base_h = vec![days_from_civil(2000, 3, 3)];
+            let mk = |h: &Vec<i64>| Cal::new(h.iter().map(|z| to_ndt(*z)).collect(), vec![]);
+            let a_u = UnionCal::new(vec![mk(&base_h)], Some(vec![mk(&vec![])]));
+            let a_c = mk(&base_h);
+            let days: Vec<i64> = if *every_day {
+                (days_from_civil(*year, 1, 1)..=days_from_civil(*year, 12, 31)).collect()
+            } else {
+                let mut v = vec![days_from_civil(*year, 1, 1), days_from_civil(*year, 12, 31), days_from_civil(*year, 2, 28), days_from_civil(*year, 3, 1), days_from_civil(*year, 12, 30)];
+                if is_leap(*year) {
+                    v.push(days_from_civil(*year, 2, 29));
+                }
+                v
+            };
+            for z in days {
+                acc.evals_add(3);
+                acc.nontrivial();
+                let mut h = base_h.clone();
+                h.push(z);
+                let b_bus = UnionCal::new(vec![mk(&h)], Some(vec![mk(&vec![])]));
+                let b_set = UnionCal::new(vec![mk(&base_h)], Some(vec![mk(&vec![z])]));
+                let b_c = mk(&h);
+                let results = [("business-day bit, UnionCal==UnionCal", a_u == b_bus), ("settlement bit, UnionCal==UnionCal", b_set == a_u), ("business-day bit, Cal==UnionCal", a_c == b_bus), ("business-day bit, UnionCal==Cal", a_u == b_c)];
+                for (what, eq) in results {
+                    if eq {
+                        acc.violate("equality/should-differ/single-day-sweep", idx, cj(), json!({"date": fmt_day(z), "comparison": what, "want": false}), json!(true));
+                    }
+                }
+            }
+            acc.outcome(year);
+            if year % 40 == 0 {
+                acc.sample(cj);
+            }
+        }
         Case::Equality { id } => {
             if let Some((desc, want, comps)) = equality_scenario(*id) {
                 acc.nontrivial();
@@ -471,6 +508,9 @@ pub fn cases(tier: Tier) -> Vec<Case> {
         out.push(Case::Parse { s: s.to_string() });
     }
     // (d) equality
+    for year in 1970..=2200 {
+        out.push(Case::EqualitySweep { year, every_day: tier == Tier::Thorough && year % 4 == 0 });
+    }
     for id in 0..N_EQ {
         out.push(Case::Equality { id });
     }
@@ -497,7 +537,8 @@ pub fn run(ctx: &Ctx, replay_file: Option<String>) -> ! {
          never a panic. (d) equality scenarios across Cal / UnionCal / NamedCal in both argument orders: same \
          behaviour built differently is equal; one business-day or settlement bit of difference at 1970-01-01, \
          1970-01-02, 2015-09-08, 2200-12-30, 2200-12-31 is unequal; a difference only at 1969-12-31 or 2201-01-01 is \
-         equal. Non-trivial: unions whose members disagree on some date, names with >= 2 parts, rejected strings.",
+         equal; a one-day difference at Jan 1, Feb 28/29, Mar 1, Dec 30, Dec 31 of EVERY year 1970-2200 (thorough: at every \
+         day of every fourth year) is unequal. Non-trivial: unions whose members disagree on some date, names with >= 2 parts, rejected strings.",
         json!({"cases": cs.len()}),
     )
     .assume("single built-in calendars are taken as given here (C07 checks them against their rules)");
